@@ -20,6 +20,7 @@ struct MsgGenOpts {
     bool status_cmds = true;      // commands that read status registers / the error queue
     bool malformed = false;       // sprinkle malformed fragments
     bool torture = false;
+    bool expr_quotes = false;     // quote characters inside parentheses (malformed expressions)
     bool ws_before_comma = true;
     int max_units = 4;
 };
